@@ -254,6 +254,9 @@ pub struct Ntv2Spec {
     /// what the purely descriptive text fields (VERSION, SYSTEM_F, SYSTEM_T, CREATED,
     /// UPDATED) hold: 0 plain ASCII, 1 Latin-1 bytes (not valid UTF-8), 2 multi-byte
     /// UTF-8 cut by the field width, 3 zero bytes. No reader needs them.
+    /// Bits 2..3: how SUB_NAME and PARENT sit in their 8 byte fields (0 left-justified,
+    /// 1 both right-justified, 2 PARENT right-justified only, 3 SUB_NAME indented by one
+    /// blank): labels are blank padded text, compared without the padding.
     #[serde(default)]
     pub meta: u8,
 }
@@ -278,6 +281,16 @@ fn put_f64(out: &mut Vec<u8>, key: &str, v: f64, be: bool) {
 fn put_str(out: &mut Vec<u8>, key: &str, v: &str) {
     out.extend_from_slice(format!("{:<8}", key).as_bytes());
     let mut s = format!("{:<8}", v);
+    s.truncate(8);
+    out.extend_from_slice(s.as_bytes());
+}
+fn put_label(out: &mut Vec<u8>, key: &str, v: &str, style: u8) {
+    out.extend_from_slice(format!("{:<8}", key).as_bytes());
+    let mut s = match style {
+        1 => format!("{:>8}", v),
+        2 => format!(" {:<7}", v),
+        _ => format!("{:<8}", v),
+    };
     s.truncate(8);
     out.extend_from_slice(s.as_bytes());
 }
@@ -319,8 +332,14 @@ impl Ntv2Spec {
         put_f64(&mut out, "MAJOR_T", 6378137.0, be);
         put_f64(&mut out, "MINOR_T", 6356752.314140356, be);
         for g in &self.subgrids {
-            put_str(&mut out, "SUB_NAME", &g.name);
-            put_str(&mut out, "PARENT", &g.parent);
+            let (name_style, parent_style) = match (self.meta / 4) % 4 {
+                0 => (0, 0),
+                1 => (1, 1),
+                2 => (0, 1),
+                _ => (2, 0),
+            };
+            put_label(&mut out, "SUB_NAME", &g.name, name_style);
+            put_label(&mut out, "PARENT", &g.parent, parent_style);
             put_raw(&mut out, "CREATED", if self.meta % 4 == 1 { b"ao\xfbt 26" } else { b"20260927" });
             put_str(&mut out, "UPDATED", "20260927");
             put_f64(&mut out, "S_LAT", g.s_lat, be);
@@ -428,7 +447,12 @@ impl Ntv2Spec {
             subgrids.push(base);
         }
         rng.shuffle(&mut subgrids);
-        Ntv2Spec { big_endian, subgrids, meta: if rng.chance(0.3) { 1 + rng.below(3) as u8 } else { 0 } }
+        let text = if rng.chance(0.3) { 1 + rng.below(3) as u8 } else { 0 };
+        // (drawn from a copy of the generator: adding this choice left every plan of the
+        // earlier engine versions as it was)
+        let mut side = rng.clone();
+        let labels = if side.chance(0.15) { 1 + side.below(3) as u8 } else { 0 };
+        Ntv2Spec { big_endian, subgrids, meta: text + 4 * labels }
     }
 
     /// A single base grid with constant shifts and wide coverage
